@@ -63,6 +63,11 @@ def render(rdflib) -> str:
             pass
     out.append("(* SinkParser.strconst: backslash + letter -> character (probed for every ASCII letter but u, U) *)")
     out.append("Definition n3_echar_table : list (N * N) := [" + "; ".join(f"({a}%N, {b}%N)" for a, b in pairs) + "].")
+    out.append("(* notation3._notQNameChars, escapeChars (sorted) *)")
+    out.append(f"Definition n3_notqname_chars : list N := {_cs(''.join(sorted(notation3._notQNameChars)))}.")
+    out.append(f"Definition n3_escape_chars : list N := {_cs(''.join(sorted(notation3.escapeChars)))}.")
+    out.append(f"Definition n3_notname_extra : list N := {_cs(''.join(sorted(notation3._notNameChars - notation3._notQNameChars)))}.")
+    out.append(f"Definition n3_number_plus_chars : list N := {_cs(''.join(sorted(notation3.numberCharsPlus)))}.")
     out.append(f"Definition n3_interesting_src : list N := {_cs(notation3.interesting.pattern)}.")
     out.append(f"Definition n3_unicodeEscape4_src : list N := {_cs(notation3.unicodeEscape4.pattern)}.")
     out.append(f"Definition n3_unicodeEscape8_src : list N := {_cs(notation3.unicodeEscape8.pattern)}.")
